@@ -1,5 +1,7 @@
 //! Shared generators: a deterministic pool of validator / node keys and committee specifications.
 pub mod certs;
+pub mod mutate;
+pub mod values;
 pub mod wire;
 
 use std::sync::OnceLock;
